@@ -1,7 +1,12 @@
-(* Model of solvor/articulation.py: articulation_points and bridges (Tarjan low-link DFS) on the
-   SYMMETRISED simple graph Graph.sadj (edge {u,v} iff v in neighbors(u) or u in neighbors(v), both in
-   the node set, u <> v) - the behaviour of the repaired code (the module treats the graph as
-   undirected).  Definitions only.
+(* Model of solvor/articulation.py (after commit 640de1b): _undirected_adjacency, articulation_points
+   and bridges (Tarjan low-link DFS over the symmetrised simple graph: {u,v} is an edge iff v in
+   neighbors(u) or u in neighbors(v), both in the node set, u <> v).  Definitions only.
+
+   _undirected_adjacency builds insertion-ordered dicts: first adj[v] = the in-set, non-self entries of
+   neighbors(v) without repeats, in list order (`own`); then, for v in node order, v is appended to
+   adj[w] for every w in adj[v] that does not have it yet.  Entries appended in that second pass only
+   trigger no-op setdefaults later, so  adj[v] = own v ++ [u in node order | v in own u, u not in own v]
+   (`uadj`).  ArticProofs shows  In w (uadj g v) <-> edge_b g v w  for nodes v.
 
    The two Python functions run the same DFS skeleton (discovery / low / parent / time / iterations);
    the model runs it once and keeps both result containers: `aps` (set, insertion order) with the
@@ -14,6 +19,18 @@
 From Coq Require Import List Arith Bool.
 From SV Require Import C15.Graph.
 Import ListNotations.
+
+Fixpoint dedup (l : list nat) (seen : list nat) : list nat :=
+  match l with
+  | [] => []
+  | x :: r => if memb x seen then dedup r seen else x :: dedup r (x :: seen)
+  end.
+
+Definition own (g : graph) (v : nat) : list nat :=
+  dedup (filter (fun w => memb w (nodes g) && negb (w =? v)) (nbrs g v)) [].
+
+Definition uadj (g : graph) (v : nat) : list nat :=
+  own g v ++ filter (fun u => memb v (own g u) && negb (memb u (own g v))) (nodes g).
 
 Record ast := {
   disc : list (nat * nat);
@@ -75,7 +92,7 @@ Fixpoint dfs (fuel : nat) (g : graph) (v : nat) (s : ast) : option ast :=
            if parent_is s v w then loop ws' children s
            else loop ws' children (set_low s v (Nat.min (lowd s v) dw))
          end
-       end) (sadj g v) 0 (enter s v)
+       end) (uadj g v) 0 (enter s v)
   end.
 
 (*  for v in node_list: if v not in discovery: parent[v] = None; dfs(v)  *)
